@@ -489,7 +489,9 @@ class Worker(object):
                 else:
                     args.pop(0)
 
-            os.environ = old_env
+            # restore the environment (of the mapping *and* of the process)
+            os.environ.clear()
+            os.environ.update(old_env)
 
         self._log.debug('%s: got %s', uid, out)
 
@@ -547,7 +549,9 @@ class Worker(object):
             sys.stdout = bak_stdout
             sys.stderr = bak_stderr
 
-            os.environ = old_env
+            # restore the environment (of the mapping *and* of the process)
+            os.environ.clear()
+            os.environ.update(old_env)
 
         return out, err, ret, val, exc
 
@@ -615,7 +619,9 @@ class Worker(object):
             sys.stdout = bak_stdout
             sys.stderr = bak_stderr
 
-            os.environ = old_env
+            # restore the environment (of the mapping *and* of the process)
+            os.environ.clear()
+            os.environ.update(old_env)
 
         return out, err, ret, val, exc
 
